@@ -2,11 +2,13 @@
 EXTENDS TlsAccept, Json, IOUtils, TLC, Sequences, TraceUtil
 Rec == ndJsonDeserialize(IOEnv.TRACE)
 VARIABLE l
-Expected(e) == Accept(e.chain, e.expired, e.nameOK, [certs |-> e.certs, hosts |-> e.hosts, root |-> e.root], e.scope)
+Expected(e) == Accept(e.chain, e.expired, e.nameOK, [certs |-> e.certs, hosts |-> e.hosts, root |-> e.root, rootIsLeaf |-> e.rootIsLeaf], e.scope)
 \* success only when authenticated (or waived) ...
 G14_noUnauthenticatedSuccess(e) == e.res = "ok" => Expected(e)
 \* ... and what each flag waives really is waived
-G14_waiverHonoured(e) == Expected(e) => e.res = "ok"
+\* (whether a self-signed server certificate added as a root is usable as a trust anchor differs between TLS
+\* libraries: for those rows only the first direction is judged)
+G14_waiverHonoured(e) == (Expected(e) /\ ~e.rootIsLeaf) => e.res = "ok"
 TraceInit == l = 1
 TraceNext ==
   /\ l <= Len(Rec)
